@@ -114,7 +114,8 @@ let run_case inp =
         (* an element of set(..): no rule of the setof_ nonterminal assigns a value; when all terminals of the set
            have one type the reference is typed and reads that type's zero value (types are not modelled) *)
         let o = get_int off in
-        { v = (match get_int kind with 1 -> "0" | 2 -> "empty" | _ -> "nil"); off = o; fin = o + 1 }
+        (* "u0"/"uempty": resolved against the implementation's answer by [resolve] (zero value or nil) *)
+        { v = (match get_int kind with 1 -> "u0" | 2 -> "uempty" | _ -> "nil"); off = o; fin = o + 1 }
       | [A "l"; elems; st] ->
         let st = get_int st in
         (* a star list starts from the empty rule: its first element already has the list in front *)
@@ -182,8 +183,23 @@ let run_case inp =
     L [A "log"; L (SL.map (fun (k, c, args) -> L (A (string_of_int k) :: A (string_of_int c) :: SL.map (fun a -> A a) args)) l); A e.v] in
   (fmt !mlog, fmt !olog, !bad)
 
+(* An element of set(..) has no semantic value of its own: a reference to it reads the zero value of the set's type
+   when the reference is typed and nil otherwise; which of the two the generated code does depends on type
+   inference that is not modelled, so both are accepted (the slot is what the property is about: every other
+   symbol has a value that is neither). *)
+let rec resolve (x : sexp) (impl : sexp) : sexp =
+  match x, impl with
+  | A "u0", A a when a = "0" || a = "nil" -> impl
+  | A "uempty", A a when a = "empty" || a = "nil" -> impl
+  | A "u0", _ -> A "0"
+  | A "uempty", _ -> A "empty"
+  | L xs, L ys when Stdlib.List.length xs = Stdlib.List.length ys -> L (Stdlib.List.map2 resolve xs ys)
+  | L xs, _ -> L (Stdlib.List.map (fun y -> resolve y (A "")) xs)
+  | _ -> x
+
 let () = Reg.register "c16.run" (fun inp out ->
   let (m, o, bad) = run_case inp in
+  let m = resolve m out and o = resolve o out in
   let verdict =
     if bad <> "" then bad
     else if to_string o = to_string out then "ok"
